@@ -2,22 +2,29 @@ pub mod c01;
 pub mod c02;
 pub mod c03;
 pub mod c04;
+pub mod c05;
+pub mod c06;
 pub mod c08;
 pub mod c11;
 pub mod c13;
+pub mod c16;
+pub mod c19;
 pub mod common;
 pub mod replay;
 
 pub fn run(p: &str, thorough: bool, rest: &[String]) {
-    let _ = rest;
     match p {
         "C01" => c01::run(thorough),
         "C02" => c02::run(thorough),
         "C03" => c03::run(thorough),
         "C04" => c04::run(thorough),
+        "C05" => c05::run(thorough),
+        "C06" => c06::run(thorough),
         "C08" => c08::run(thorough),
         "C11" => c11::run(thorough),
         "C13" => c13::run(thorough),
+        "C16" => c16::run(thorough, rest),
+        "C19" => c19::run(thorough),
         _ => {
             eprintln!("unknown property {}", p);
             std::process::exit(2);
